@@ -17,21 +17,21 @@ theorem ids_updPort (l : List MPort) (i : Nat) (f : MPort → MPort) (hf : ∀ p
   · exact hf p
   · rfl
 
-theorem ids_drain (m : Master) : (drain m).2.ports.map (·.id) = m.ports.map (·.id) := by
+theorem ids_drain (fix : Fix) (m : Master) : (drain fix m).2.ports.map (·.id) = m.ports.map (·.id) := by
   unfold drain
   simp only [List.map_map]
   apply List.map_congr_left
   intro p _
   simp only [Function.comp, drainPort_id]
 
-theorem nodup_drain (m : Master) (h : (m.ports.map (·.id)).Nodup) : ((drain m).2.ports.map (·.id)).Nodup := by
+theorem nodup_drain (fix : Fix) (m : Master) (h : (m.ports.map (·.id)).Nodup) : ((drain fix m).2.ports.map (·.id)).Nodup := by
   rw [ids_drain]; exact h
 
 theorem nodup_stepInc (fix : Fix) (m : Master) (x : Inc) (h : (m.ports.map (·.id)).Nodup) :
     ((stepInc fix m x).ports.map (·.id)).Nodup := by
   cases x with
   | ev e => exact nodup_stepEvent fix m e h
-  | tick => exact nodup_drain m h
+  | tick => exact nodup_drain fix m h
 
 theorem nodup_runInc (fix : Fix) (incs : List Inc) :
     ∀ (m : Master), (m.ports.map (·.id)).Nodup → ((runInc fix m incs).ports.map (·.id)).Nodup := by
